@@ -86,6 +86,7 @@ void reg_done(void);
 
 /* utf-8 helper functions */
 int uc_len(char *s);
+void uc_trim(char *s);
 int uc_wid(char *s);
 int uc_slen(char *s);
 int uc_code(char *s);
